@@ -1,12 +1,17 @@
-(* C19/CacheInit.v — instance (f): the lazy allocation of the tsm1 cache store.
+(* C19/CacheInit.v — instance (f): the lazily allocated store of the tsm1 cache, its
+   release on idle shards, and the engine lock around writes.
 
    tsdb/engine/tsm1/cache.go: NewCache starts with [store = emptyStore{}], whose write
-   accepts values, returns no error and stores nothing.  Every Write/WriteMulti first calls
+   accepts values, returns no error and stores nothing.  Cache.WriteMulti first calls
    Cache.init, which allocates the ring on first use, then fetches c.store under
-   c.mu.RLock, then writes into the store it fetched, then returns nil (the engine goes on
-   to the WAL and acknowledges).  A reader (Cache.Values) reads the store that is current.
+   c.mu.RLock, then writes into the store it fetched, then returns nil.  The engine
+   (Engine.WritePointsWithContext) does this, and the WAL write, under e.mu.RLock and then
+   acknowledges.  A reader (Cache.Values) reads the store that is current.
+   Store.monitorShards runs `if sh.IsIdle() { sh.Free() }` every 10 s: IsIdle looks at
+   Cache.Size(), Free releases the store (store = emptyStore{}, flag = 0).
 
-   A writer thread is the action list [CInit1 w; CInit2 w; CFetch w; CWrite w v; CAck w]:
+   A writer thread is the action list [CEnter w; CInit1 w; CInit2 w; CFetch w; CWrite w v; CAck w]:
+     CEnter   e.mu.RLock (never blocks here: the exclusive holder below is one action)
      CInit1   the lock-free look at initializedCount
               - repaired code: atomic load; 1 -> initialised, 0 -> go and take the lock
               - [flag_first = true], the pinned code: CompareAndSwap(0,1); the loser of
@@ -16,11 +21,21 @@
                 a fresh ring and then set the flag
               - pinned code: the winner of the CAS installs the ring (unconditionally)
      CFetch   store := c.store under c.mu.RLock
-     CWrite   store.write(values): into the ring fetched, or nowhere (emptyStore)
-     CAck     WriteMulti returned nil
+     CWrite   size += ...; store.write(values): into the ring fetched, or nowhere (emptyStore)
+     CAck     e.mu.RUnlock; the write returned nil
+   The monitor is [CIdle f; CFree f]:
+     CIdle    sh.IsIdle(): Cache.Size() = 0 ?  (Free is called only if so)
+     CFree    - repaired code: ONE section under e.mu.Lock (it waits until no writer holds
+                the read lock: while one does, the action is a stutter step): if the cache
+                is STILL empty, store := emptyStore, flag := 0
+              - [free_unlocked = true], the pinned code: no engine lock, no second look
+   CFlush is a whole cache snapshot (Engine.WriteSnapshot: the cache's values go to a TSM
+   file and leave the cache) as ONE step; it begins under e.mu.Lock, so it waits for the
+   writers.  Its own sections, and reads that overlap it, are instance (c); it is here so
+   that an allocated, empty cache with acknowledged values - the state in which the
+   monitor releases the store - is reachable.
    Each action checks the phase of its thread, so EVERY list of actions is a legal program
-   and every schedule a legal execution.  Cache.Free (called on idle shards only) is not
-   part of this instance.  Definitions only. *)
+   and every schedule a legal execution.  Definitions only. *)
 From Verif Require Export C19.Model.
 Open Scope N_scope.
 
@@ -30,6 +45,7 @@ Inductive chandle :=
 
 Inductive cphase :=
 | CStart
+| CEntered                         (* holds e.mu.RLock *)
 | CMustInstall                     (* pinned code only: won the CAS, ring not installed yet *)
 | CSlow                            (* repaired code only: saw the flag 0, about to take the lock *)
 | CInited                          (* init returned *)
@@ -37,45 +53,70 @@ Inductive cphase :=
 | CWritten (v : N)
 | CAcked.
 
+Inductive fphase :=
+| FStart
+| FSeen (idle : bool)
+| FDone.
+
 Record cstate := mkCS {
   c_flag : bool;                   (* initializedCount = 1 *)
   c_store : chandle;               (* c.store *)
   c_gen : N;                       (* rings allocated so far *)
   c_rings : N -> list N;           (* contents of each ring *)
+  c_files : list N;                (* values a cache snapshot has moved to TSM files *)
+  c_size : N;                      (* Cache.Size(): values accepted so far (nothing deletes here) *)
+  c_inside : list N;               (* writers holding e.mu.RLock *)
   c_acked : list N;
-  c_ph : N -> cphase
+  c_ph : N -> cphase;
+  c_fph : N -> fphase
 }.
 
-Definition cinit : cstate := mkCS false HEmpty 0 (fun _ => []) [] (fun _ => CStart).
+Definition cinit : cstate := mkCS false HEmpty 0 (fun _ => []) [] 0 [] [] (fun _ => CStart) (fun _ => FStart).
 
 Inductive cact :=
+| CEnter (w : N)
 | CInit1 (w : N)
 | CInit2 (w : N)
 | CFetch (w : N)
 | CWrite (w : N) (v : N)
-| CAck (w : N).
+| CAck (w : N)
+| CIdle (f : N)
+| CFree (f : N)
+| CFlush.
 
 Definition cset_ph (s : cstate) (w : N) (p : cphase) : cstate :=
-  mkCS (c_flag s) (c_store s) (c_gen s) (c_rings s) (c_acked s) (upd (c_ph s) w p).
+  mkCS (c_flag s) (c_store s) (c_gen s) (c_rings s) (c_files s) (c_size s) (c_inside s) (c_acked s) (upd (c_ph s) w p) (c_fph s).
 
-Definition cexec_with (flag_first : bool) (a : cact) (s : cstate) : cstate :=
+Definition cset_fph (s : cstate) (f : N) (p : fphase) : cstate :=
+  mkCS (c_flag s) (c_store s) (c_gen s) (c_rings s) (c_files s) (c_size s) (c_inside s) (c_acked s) (c_ph s) (upd (c_fph s) f p).
+
+Definition cexec_with (flag_first free_unlocked : bool) (a : cact) (s : cstate) : cstate :=
   match a with
+  | CEnter w =>
+      match c_ph s w with
+      | CStart => mkCS (c_flag s) (c_store s) (c_gen s) (c_rings s) (c_files s) (c_size s) (w :: c_inside s) (c_acked s)
+                       (upd (c_ph s) w CEntered) (c_fph s)
+      | _ => s
+      end
   | CInit1 w =>
       match c_ph s w with
-      | CStart =>
+      | CEntered =>
           if c_flag s then cset_ph s w CInited
           else if flag_first
-               then mkCS true (c_store s) (c_gen s) (c_rings s) (c_acked s) (upd (c_ph s) w CMustInstall)
+               then mkCS true (c_store s) (c_gen s) (c_rings s) (c_files s) (c_size s) (c_inside s) (c_acked s)
+                         (upd (c_ph s) w CMustInstall) (c_fph s)
                else cset_ph s w CSlow
       | _ => s
       end
   | CInit2 w =>
       match c_ph s w with
       | CMustInstall =>
-          mkCS (c_flag s) (HRing (c_gen s)) (c_gen s + 1) (c_rings s) (c_acked s) (upd (c_ph s) w CInited)
+          mkCS (c_flag s) (HRing (c_gen s)) (c_gen s + 1) (c_rings s) (c_files s) (c_size s) (c_inside s) (c_acked s)
+               (upd (c_ph s) w CInited) (c_fph s)
       | CSlow =>
           if c_flag s then cset_ph s w CInited
-          else mkCS true (HRing (c_gen s)) (c_gen s + 1) (c_rings s) (c_acked s) (upd (c_ph s) w CInited)
+          else mkCS true (HRing (c_gen s)) (c_gen s + 1) (c_rings s) (c_files s) (c_size s) (c_inside s) (c_acked s)
+                    (upd (c_ph s) w CInited) (c_fph s)
       | _ => s
       end
   | CFetch w =>
@@ -85,29 +126,64 @@ Definition cexec_with (flag_first : bool) (a : cact) (s : cstate) : cstate :=
       end
   | CWrite w v =>
       match c_ph s w with
-      | CFetched HEmpty => cset_ph s w (CWritten v)
+      | CFetched HEmpty =>
+          mkCS (c_flag s) (c_store s) (c_gen s) (c_rings s) (c_files s) (c_size s + 1) (c_inside s) (c_acked s)
+               (upd (c_ph s) w (CWritten v)) (c_fph s)
       | CFetched (HRing g) =>
-          mkCS (c_flag s) (c_store s) (c_gen s) (upd (c_rings s) g (c_rings s g ++ [v])) (c_acked s)
-               (upd (c_ph s) w (CWritten v))
+          mkCS (c_flag s) (c_store s) (c_gen s) (upd (c_rings s) g (c_rings s g ++ [v])) (c_files s) (c_size s + 1) (c_inside s)
+               (c_acked s) (upd (c_ph s) w (CWritten v)) (c_fph s)
       | _ => s
       end
   | CAck w =>
       match c_ph s w with
-      | CWritten v => mkCS (c_flag s) (c_store s) (c_gen s) (c_rings s) (c_acked s ++ [v]) (upd (c_ph s) w CAcked)
+      | CWritten v =>
+          mkCS (c_flag s) (c_store s) (c_gen s) (c_rings s) (c_files s) (c_size s) (remove N.eq_dec w (c_inside s))
+               (c_acked s ++ [v]) (upd (c_ph s) w CAcked) (c_fph s)
       | _ => s
+      end
+  | CIdle f =>
+      match c_fph s f with
+      | FStart => cset_fph s f (FSeen (N.eqb (c_size s) 0))
+      | _ => s
+      end
+  | CFree f =>
+      match c_fph s f with
+      | FSeen false => cset_fph s f FDone
+      | FSeen true =>
+          let release :=
+            if c_flag s
+            then mkCS false HEmpty (c_gen s) (c_rings s) (c_files s) (c_size s) (c_inside s) (c_acked s) (c_ph s) (upd (c_fph s) f FDone)
+            else cset_fph s f FDone in
+          if free_unlocked then release
+          else match c_inside s with
+               | [] => if N.eqb (c_size s) 0 then release else cset_fph s f FDone
+               | _ :: _ => s                       (* e.mu.Lock waits for the readers *)
+               end
+      | _ => s
+      end
+  | CFlush =>
+      match c_inside s, c_store s with
+      | [], HRing g =>
+          mkCS (c_flag s) (c_store s) (c_gen s) (upd (c_rings s) g []) (c_files s ++ c_rings s g) 0 (c_inside s)
+               (c_acked s) (c_ph s) (c_fph s)
+      | _, _ => s                                  (* e.mu.Lock waits for the readers; nothing to flush *)
       end
   end.
 
-Definition cexec := cexec_with false.
+Definition cexec := cexec_with false false.
 
 (* what Cache.Values can return: the contents of the store that is current *)
-Definition cvisible (s : cstate) : list N :=
+Definition cring (s : cstate) : list N :=
   match c_store s with
   | HEmpty => []
   | HRing g => c_rings s g
   end.
 
+(* what a read returns: the files and the cache *)
+Definition cvisible (s : cstate) : list N := c_files s ++ cring s.
+
 (* the executable spec: every acknowledged value is readable *)
 Definition cache_acked_visible (s : cstate) : bool := subset (c_acked s) (cvisible s).
 
-Definition cwriter (w v : N) : list cact := [CInit1 w; CInit2 w; CFetch w; CWrite w v; CAck w].
+Definition cwriter (w v : N) : list cact := [CEnter w; CInit1 w; CInit2 w; CFetch w; CWrite w v; CAck w].
+Definition cmonitor (f : N) : list cact := [CIdle f; CFree f].
